@@ -104,9 +104,12 @@ def gen_iface(rng, i):
     customs, methods, errors = [], [], []
     member_names = set()
     for tn in pick_names(rng, TYPE_NAMES, rng.randint(0, 3), conv=pascal):
-        if pascal(tn) in used:
+        # collision-free means: free of collisions among the identifiers the generator emits (a type `Self` is
+        # emitted as `Self_`, which is also what the trait of an interface `....self` is called)
+        if pascal(tn) in used or rident(pascal(tn)) in used:
             continue
         used.add(pascal(tn))
+        used.add(rident(pascal(tn)))
         member_names.add(tn)
         if rng.random() < 0.35:
             vs = pick_names(rng, SNAKE_VARIANT_NAMES if rng.random() < 0.35 else VARIANT_NAMES, rng.randint(1, 4), conv=pascal)
